@@ -188,6 +188,17 @@ CLAIMED["C20"] = dict(
          "array.data on any executed path).",
     technique=TECH + "; assumed rasterio/xarray contracts; bounded stand-in for the burn rule",
 )
+CLAIMED["C15"] = dict(
+    level="other",
+    text="Deductive part (mode R, relative to library contracts): load_clip's offset/length arithmetic and call wiring into "
+         "load_audio, the exact number of time coordinates (`no CoordinateValidationError`), frame times (offset+i)/sr, the resample "
+         "drift lemma, and compute_spectrogram's advertised step == realised step for time and frequency axes (real body). The clause "
+         "that carries the property's weight -- the frames returned are the file's frames, zero-filled past EOF, for every channel "
+         "count and time expansion -- lives in libsndfile and is decided by the bounded stand-in audio_files (synthesised WAVs).",
+    note="Three defects found by the stand-in were fixed in /repo (98b2179 seek past EOF, 6ee4a0d advertised spectrogram step, "
+         "142d0fb empty range IndexError). Trusted: soundfile read contract, scipy stft / resample time vectors, xarray constructor.",
+    technique=TECH + " for the arithmetic and axis claims; bounded stand-in (labelled bounded) for file I/O",
+)
 ALL = [f"C{n:02d}" for n in range(1, 21)]
 NOT_APPLICABLE = {p: "check not built yet in this session (work in progress; see DESIGN.md section 12 build order)"
                   for p in ALL if p not in CLAIMED}
